@@ -5,15 +5,16 @@ from fractions import Fraction
 from harness.core import numeval, tb
 from harness.props import _shared
 
-PROOF_MODULE = ["OdeVerif.Proofs.C02", "OdeVerif.Proofs.PipelineLossless", "OdeVerif.Proofs.RefineNumeric", "OdeVerif.Proofs.RefineSplit", "OdeVerif.Proofs.RefineFromOde", "OdeVerif.Proofs.RefineFromShapes", "OdeVerif.Proofs.RefineSubSystem"]
-GENERATED = ["PyNumeric", "PySplit", "PyFromOde", "PyFromShapes", "PySubSystem"]
+PROOF_MODULE = ["OdeVerif.Proofs.C02", "OdeVerif.Proofs.PipelineLossless", "OdeVerif.Proofs.RefineNumeric", "OdeVerif.Proofs.RefineSplit", "OdeVerif.Proofs.RefineFromOde", "OdeVerif.Proofs.RefineFromShapes", "OdeVerif.Proofs.RefineSubSystem", "OdeVerif.Proofs.RefinePreserve"]
+GENERATED = ["PyNumeric", "PySplit", "PyFromOde", "PyFromShapes", "PySubSystem", "PyPreserve"]
 THEOREMS = ["OdeVerif.C02.split_lossless", "OdeVerif.C02.classify_lin_lt", "OdeVerif.C02.split_const_coeffs", "OdeVerif.C02.fromOde_lossless",
             "OdeVerif.C02.unit_row_value", "OdeVerif.C02.subsystem_lossless", "OdeVerif.C02.numericRhs_eq_row", "OdeVerif.C02.numericRhs_eq_userRhs",
             "OdeVerif.PipelineSpec.splitRow_lossless", "OdeVerif.PipelineSpec.splitRow_A_const", "OdeVerif.PipelineSpec.splitRow_b_const", "OdeVerif.PipelineSpec.unitRow_den", "OdeVerif.PipelineSpec.rows_lossless", "OdeVerif.PipelineSpec.numericRhs_lossless", "OdeVerif.PipelineSpec.analyse_numeric_rhs",
             "OdeVerif.Refine.numericExpressions_rows", "OdeVerif.Refine.numericExpressions_value",
             "OdeVerif.Refine.splitLinInhomNonlin_refines", "OdeVerif.Refine.splitLinInhomNonlin_lin_index",
             "OdeVerif.Refine.fromOdeReattach_refines",
-            "OdeVerif.Refine.fromShapesRows_unit_rows", "OdeVerif.Refine.fromShapesRows_top_row", "OdeVerif.Refine.subSystem_idx", "OdeVerif.Refine.subSystem_A_b", "OdeVerif.Refine.subSystem_c"]
+            "OdeVerif.Refine.fromShapesRows_unit_rows", "OdeVerif.Refine.fromShapesRows_top_row", "OdeVerif.Refine.subSystem_idx", "OdeVerif.Refine.subSystem_A_b", "OdeVerif.Refine.subSystem_c",
+            "OdeVerif.Refine.getAllFirstOrderVariables_refines", "OdeVerif.Refine.findVariableDefinition_refines", "OdeVerif.Refine.findDef_isSome_of_mem", "OdeVerif.Refine.findDef_some", "OdeVerif.Refine.preserveBlock_refines", "OdeVerif.Refine.preserveList_ok", "OdeVerif.Refine.preserveSpec_notFirstOrder_iff", "OdeVerif.Refine.preserveSpec_ok_mem", "OdeVerif.Refine.entry_numeric_is_user_text", "OdeVerif.Refine.entry_none"]
 LEVEL = "proof"
 
 SIMPLIFY = [None, None, "sympy.logcombine(sympy.powsimp(sympy.expand(expr)))", "expr", "sympy.factor(expr)"]
@@ -115,6 +116,7 @@ def run(ctx, driver):
     _shared.corr_subsys(ctx, driver, cases, results)
     _shared.corr_from_ode(ctx, driver, cases, results)
     _shared.corr_pipeline(ctx, driver, cases, results)
+    _shared.corr_glue(ctx, driver, cases, results, parts=("preserve",))
     ctx.assumptions += [
         "SymPy contracts (denotation preserved): parse_expr, str (re-parse round trip in reconstitute_expr), expand, simplify / the user's simplify_expression, collect; term / sym is exact division of rational functions",
         "values are compared at random rational points (transcendental atoms at 40 digits); agreement is Schwartz-Zippel evidence for the correspondence, never a proof",
